@@ -15,6 +15,7 @@ mod c10;
 mod c14;
 mod c13;
 mod c12;
+mod c06;
 
 use common::Case;
 use std::fs;
@@ -31,6 +32,7 @@ fn header(prop: &str) -> &'static str {
         "C14" => "From TSG Require Import Model.C14Obs.\n",
         "C13" | "C13D" => "From TSG Require Import Model.Stdlib.\n",
         "C12" => "From TSG Require Import Model.HashOrder.\n",
+        "C06" => "From TSG Require Import Model.Checker.\n",
         _ => "",
     }
 }
@@ -89,6 +91,7 @@ fn main() {
                 "C14" => c14::gen(&mut rng, n),
                 "C13" | "C13D" => c13::gen(&mut rng, n),
                 "C12" => c12::gen(&mut rng, n),
+                "C06" => c06::gen(&mut rng, n),
                 _ => { eprintln!("unknown property {}", prop); std::process::exit(2) }
             };
             write_cases(&prop, &cases, shards, &out);
@@ -117,6 +120,7 @@ fn main() {
                 "C14" => c14::replay(&j["case"]),
                 "C13" | "C13D" => c13::replay(&j["case"]),
                 "C12" => c12::replay(&j["case"]),
+                "C06" => c06::replay(&j["case"]),
                 _ => { eprintln!("unknown property {}", prop); std::process::exit(2) }
             };
             write_cases(&prop, &[case], 1, &out);
